@@ -91,10 +91,13 @@ FmtAddr(fmt, base, a) ==
    site = [single: 0..1, base: {10,16}, afmt, ffmt: [pre, kind, suf]   (AddressAnchor, CodeFiles)
            index: Path, res: Seq(Path)                               (GameIndex; CSS/JS/[Resources] copies)
            codes: Seq([dir: Path, map: Path, asm1: Path])           (1 = main: CodePath, MemoryMap, AsmSinglePage)
-           entries: Seq([a, t, c, ins: Seq(addr), bc: Seq(addr), refs: Seq([c, a, op])])
+           entries: Seq([a, t, c, ins: Seq(addr), bc: Seq(addr), refs: Seq([c, a, op, anc])])
            maps: Seq([path, types: Seq(STRING), inc: Seq(addr), wr: 0..1])   (main memory maps)
-           pages: Seq([path, ids: Seq(STRING), refs: Seq([c, a, op])])
-           w: Seq(STRING)]                                           (subset of d i m o P) *)
+           pages: Seq([path, ids: Seq(STRING), refs: Seq([c, a, op, anc])])
+           w: Seq(STRING)]                                           (subset of d i m o P)
+   A reference [c, a, op, anc] addresses instruction a of disassembly c, as the operand of an instruction
+   (op = 1) or with a #R macro (op = 0); anc = 1: the #R macro carries an explicit anchor that evaluates to the
+   address of the entry that contains a ("#R40003#40000", "#R40000#$9C40"), anc = 0: it carries none. *)
 AllFlags == <<"d", "i", "m", "o", "P">>
 Anchor(s, a) == FmtAddr(s.afmt, s.base, a)
 Entries(s) == Range(s.entries)
@@ -224,21 +227,24 @@ AddEntry(t, c, pts) ==
      IN site' = [site EXCEPT !.entries = Append(@, e)]
   /\ UNCHANGED <<files, written, links, todo>>
 
-\* constructor: entry i refers to instruction k of entry j, with a #R macro in its text (op = 0) or with the
-\* operand of its last instruction (op = 1, at most one per entry)
-AddRef(i, j, k, op) ==
+\* constructor: entry i refers to instruction k of entry j, with a #R macro in its text (op = 0; anc = 1: the macro
+\* names the containing entry in an explicit numeric anchor) or with the operand of its last instruction (op = 1, at
+\* most one per entry)
+AddRef(i, j, k, op, anc) ==
   /\ Building /\ NumRefs(site) < MaxRefs
   /\ i \in DOMAIN site.entries /\ j \in DOMAIN site.entries /\ k \in DOMAIN site.entries[j].ins
   /\ site.entries[i].t # "i" /\ site.entries[j].t # "i"
-  /\ op = 1 => \A x \in Range(site.entries[i].refs) : x.op = 0
-  /\ site' = [site EXCEPT !.entries[i].refs = Append(@, [c |-> site.entries[j].c, a |-> site.entries[j].ins[k], op |-> op])]
+  /\ op = 1 => anc = 0 /\ \A x \in Range(site.entries[i].refs) : x.op = 0
+  /\ site' = [site EXCEPT !.entries[i].refs = Append(@, [c |-> site.entries[j].c, a |-> site.entries[j].ins[k], op |-> op,
+                                                         anc |-> anc])]
   /\ UNCHANGED <<files, written, links, todo>>
 
-\* constructor: the [Page:*] page refers to instruction k of entry j
-AddPageRef(j, k) ==
+\* constructor: the [Page:*] page refers to instruction k of entry j (a #R macro, with or without the explicit anchor)
+AddPageRef(j, k, anc) ==
   /\ Building /\ NumRefs(site) < MaxRefs
   /\ j \in DOMAIN site.entries /\ k \in DOMAIN site.entries[j].ins /\ site.entries[j].t # "i"
-  /\ site' = [site EXCEPT !.pages[1].refs = Append(@, [c |-> site.entries[j].c, a |-> site.entries[j].ins[k], op |-> 0])]
+  /\ site' = [site EXCEPT !.pages[1].refs = Append(@, [c |-> site.entries[j].c, a |-> site.entries[j].ins[k], op |-> 0,
+                                                       anc |-> anc])]
   /\ UNCHANGED <<files, written, links, todo>>
 
 \* ---- what each page contains according to the documentation ----
@@ -253,14 +259,23 @@ Container(s, r) == {e \in Real(s) : e.c = r.c /\ r.a \in Range(e.ins)}
 \* anchor unless it is the first instruction.  An instruction operand (op = 1) is linked the same way, except that
 \* a reference to the first instruction of the entry it is in gets the anchor too (it stays on the page).
 \* On a single page every reference carries the anchor.
+\* A #R macro with an explicit anchor links to that anchor of the page; "an anchor that matches the entry address is
+\* converted to the format specified by the AddressAnchor parameter" (skool-macros.rst #R, 5.1), whichever instruction
+\* or entry point of the entry the macro addresses: the fragment is the formatted anchor of the entry's first
+\* instruction, never the number as the author wrote it.
+\* SinglePageIgnoresExplicitAnchor: on a single page skoolkit drops the explicit anchor and links to the anchor of the
+\* addressed instruction (a deliberate deviation of the implementation; both fragments name an element).
 \* Deviation "single-remote-operand": what skoolhtml._get_asm_entry did before the fix c7a4346 (found by this
 \* check): an operand that refers to a remote entry was linked to '#anchor' on the *current* single page.
+SinglePageIgnoresExplicitAnchor == TRUE
 RefLink(s, p, from, r) ==
   {IF s.single = 1
    THEN (IF Deviation = "single-remote-operand" /\ r.op = 1 /\ from.c # te.c
          THEN [href |-> <<>>, frag |-> Anchor(s, r.a)]
-         ELSE Href(s, p, EntryFile(s, te), Anchor(s, r.a)))
-   ELSE Href(s, p, EntryFile(s, te), IF r.a # te.a \/ (r.op = 1 /\ from = te) THEN Anchor(s, r.a) ELSE "")
+         ELSE Href(s, p, EntryFile(s, te), IF r.anc = 1 /\ ~SinglePageIgnoresExplicitAnchor THEN Anchor(s, te.a)
+                                           ELSE Anchor(s, r.a)))
+   ELSE Href(s, p, EntryFile(s, te), IF r.anc = 1 THEN Anchor(s, te.a)
+                                     ELSE IF r.a # te.a \/ (r.op = 1 /\ from = te) THEN Anchor(s, r.a) ELSE "")
    : te \in Container(s, r)}
 
 \* every page links to the style sheets / scripts and, through its logo, to the index (the index itself does not)
@@ -339,8 +354,8 @@ WriteNext ==
   /\ UNCHANGED site
 
 Next == \/ \E t \in Types, c \in 1..2, pts \in Pts : AddEntry(t, c, pts)
-        \/ \E i, j \in 1..MaxEntries, k \in 1..3, op \in 0..1 : AddRef(i, j, k, op)
-        \/ \E j \in 1..MaxEntries, k \in 1..3 : AddPageRef(j, k)
+        \/ \E i, j \in 1..MaxEntries, k \in 1..3, op \in 0..1, anc \in 0..1 : AddRef(i, j, k, op, anc)
+        \/ \E j \in 1..MaxEntries, k \in 1..3, anc \in 0..1 : AddPageRef(j, k, anc)
         \/ Finish
         \/ WriteNext
 
